@@ -423,11 +423,16 @@ def run_r5(ctx, rule):
             elif isinstance(d, Aff) and any(s.startswith("call@") for s in d.t) and arm == "Err":
                 arm = "Err(other)" if taken == ("eq", 0) else "Err(Interrupted)"
         if not read_called:
-            rule.check(not set_complete and not io_set, "flags/no-read", "without a read neither complete nor io_error is set", fn.loc(p[-1]))
+            comp_stored = any(e[0] == "store" and e[2][0] == ("arg1", ("complete",)) for e in st.events)
+            rule.check(not comp_stored and not io_set, "flags/no-read", "without a read neither complete nor io_error is written", fn.loc(p[-1]))
             continue
         n += 1
         want_complete = arm in ("Ok(0)", "Err(other)")
-        rule.check(set_complete == want_complete, "flags/complete/%s" % arm, "read arm %s: complete is %sset" % (arm, "" if want_complete else "not "), fn.loc(p[-1]))
+        # .. and on the other arms it is not written at all: a value computed from the read (`n < chunk_size`) is not the
+        # constant `true`, yet it would declare the source drained after any short read
+        comp_stored = any(e[0] == "store" and e[2][0] == ("arg1", ("complete",)) for e in st.events)
+        comp_unchanged = comp is None or comp == entry("complete") or not comp_stored
+        rule.check(set_complete if want_complete else comp_unchanged, "flags/complete/%s" % arm, "read arm %s: complete is %s" % (arm, "set" if want_complete else "left alone (got %s)" % (comp,)), fn.loc(p[-1]))
         rule.check(io_set == (arm == "Err(other)"), "flags/io_error/%s" % arm, "read arm %s: io_error is %sparked" % (arm, "" if arm == "Err(other)" else "not "), fn.loc(p[-1]))
     if n < 3:
         rule.bad("flags/arms", "fewer than 3 read arms recognised on returning paths (%d)" % n, kind="anchor-missing")
